@@ -97,6 +97,7 @@ def build(tier, work, builder):
         sl = X.function(dsrc, name, rx)
         sl.sub("L19:shared_ptr<string>->path identity", r"std::shared_ptr<std::string>", "verif_path")
         sl.sub("glue:std::string->message identity", r"(const )?std::string(&)? (msg|context)", r"verif_string \3")
+        sl.sub("L15:auto x = positions.find(...)->explicit type", r"(const\s+)?auto\s*&?\s*(\w+) = positions\.find\(", r"const position_index_t::line_t& \2 = positions.find(")
         if "emplace_back" in sl.text:
             sl.sub("L21:v.emplace_back(...)->verif_emplace_back(v, ...)", r"\b(errors|warnings)\.emplace_back\(", r"verif_emplace_back(\1, ", required=True)
         dfun.append(sl)
